@@ -1,6 +1,16 @@
 ---- MODULE Trace_Synth ----
-(* C13: trace validation of RR::from_string and of the insertion of its result. *)
-EXTENDS Synth, Json, IOUtils
+(***************************************************************************)
+(* C13: trace validation of RR::from_string and of the insertion of its    *)
+(* result.  Two oracles judge every recorded call:                         *)
+(*   SynthWhy    the structured record the scenario generator built the    *)
+(*               text from (valid texts and systematically damaged ones)   *)
+(*   GrammarWhy  the grammar itself (spec/TextGrammar.tla) applied to the  *)
+(*               bytes of the text: decides arbitrary strings too          *)
+(* They are independent descriptions of the same language: a text one      *)
+(* calls valid and the other excludes is reported as a tool error          *)
+(* (SPEC-DISAGREE), never as a violation.                                  *)
+(***************************************************************************)
+EXTENDS TextGrammar, Json, IOUtils
 Rec == ndJsonDeserialize(IOEnv.TRACE)
 VARIABLES l, done
 Init == l \in 1..Len(Rec) /\ done = 0
@@ -8,6 +18,14 @@ Once == done = 0 /\ done' = 1 /\ l' = l
 \* the driver process was killed by the scenario (abort, stack overflow) or made no progress (hang)
 Died(e) == e.k \in {"hang", "abort"}
 Report(tag, why) == PrintT("@@" \o tag \o "|" \o ToString(l) \o "|" \o why)
-C13(e) == LET w == SynthWhy(e) IN IF w = "" THEN TRUE ELSE Report("VIOLATION-C13", w)
+C13(e) ==
+  LET w == SynthWhy(e)  c == Classify(e.text)  g == GrammarWhy(e) IN
+  /\ Report("FACT", e.expect \o "|" \o c.k)
+  /\ IF (e.expect = "ok" /\ c.k = "err") \/ (e.expect = "err" /\ c.k = "ok")
+        \/ (e.expect = "ok" /\ c.k = "ok" /\ WireRR(c.rec) # WireRR(e.rec))
+     THEN Report("SPEC-DISAGREE", "generator says " \o e.expect \o ", the grammar says " \o c.k)
+     ELSE IF w # "" THEN Report("VIOLATION-C13", w)
+     ELSE IF g # "" THEN Report("VIOLATION-C13", g)
+     ELSE TRUE
 NextC13 == Once /\ (IF Died(Rec[l]) THEN Report("VIOLATION-C13", "the library " \o Rec[l].k \o "s") ELSE C13(Rec[l]))
 ====
